@@ -251,9 +251,9 @@ void COTpdoReadData(CO_IF_FRM *frm, uint8_t pos, uint8_t size, CO_OBJ *obj) { (v
 /* ------------------------------------------------------------------ safety monitor */
 const char *w_safety(int max_frames)
 {
-    if (OBS.fatal)               return "fatal-error callback invoked";
-    if (OBS.ntx > max_frames)    return "too many frames sent in one step";
-    if (DRV.lock_depth != 0)     return "timer lock depth not balanced after step";
+    if (OBS.fatal)               return "safety:fatal-error callback invoked";
+    if (OBS.ntx > max_frames)    return "safety:too many frames sent in one step";
+    if (DRV.lock_depth != 0)     return "safety:timer lock depth not balanced after step";
     return 0;
 }
 
